@@ -63,7 +63,7 @@ def check(chk, repo, tier):
     def fold(node):
         return it.eval(node, ModuleEnv(ptr), ptr)
 
-    ti = TaintInterp(tmod, fold, langs, {"esc_loop_ok": True,
+    ti = TaintInterp(tmod, fold, langs, {"shape_ok": {},
                                          "arity_is_int": True,
                                          "uncompress_returns": {}})
     ti.run_function(tmod.function("transpile_token"), {"token": Obj("token")})
